@@ -18,7 +18,7 @@ func init() {
 		Explanation: "(R1) lease typestate on the CFG of the ping-pong pools' NewStream: from the point a client is leased (taken out of the idle list or created and counted) every path to a return either binds it to the stream (stream.AddEventListener(client), whose single OnDestroyStream returns or closes it) or is the refused/failed branch on which no client was leased; nothing that can refuse the request (breaker check) may follow the lease. " +
 			"(R2) dirty clients are closed: every boolean field a pool client sets in OnResetStream/OnGoAway must be read in its OnDestroyStream, and on the flag-true edge a Close precedes any re-pooling; a flag that is written and never read anywhere is reported outright. " +
 			"(R3) books under the lock: every access to the idle list happens with the pool mutex held (lockset on the CFG; *Locked helpers are checked at their call sites); the close-event handler removes the client from the idle list, sets closed and decrements the client count inside one critical section; re-pooling is guarded by !closed. " +
-			"(R4) the client count incremented before connecting is decremented on every path that does not hand out a client. (R5) stream destroy listeners run once (CAS). (R4, alternative) a reserve-before-dial design is accepted only when the slot is released on the refusal path and on both connect-failure events. (R7) in xStream.ResetStream a non-deferred removal from clientStreams can precede BaseStream.ResetStream and no deferred removal exists. (R8) the closing set of each ping-pong pool (reasons under which OnResetStream raises its close flag) is computed from SSA; every ResetStream(r) site of the package has r in the closing set or lies where the connection is known closed (reason handed down by the connection-level Reset, read from resetReason, or under err == ErrConnectionHasClosed); client.OnEvent calls Reset only with CheckReasonError's reason on its not-ok edge.",
+			"(R4) the client count incremented before connecting is decremented on every path that does not hand out a client. (R5) stream destroy listeners run once (CAS). (R4, alternative) a reserve-before-dial design is accepted only when the slot is released on the refusal path and on both connect-failure events. (R7) in xStream.ResetStream a non-deferred removal from clientStreams can precede BaseStream.ResetStream and no deferred removal exists. (R8) the closing set of each ping-pong pool (reasons under which OnResetStream raises its close flag) is computed from SSA; every ResetStream(r) site of the package has r in the closing set or lies where the connection is known closed (reason handed down by the connection-level Reset, read from resetReason, or under err == ErrConnectionHasClosed); client.OnEvent calls Reset only with CheckReasonError's reason on its not-ok edge. (R3 close-handler-unconditional) for every closing event no path through the pool client's connection-event handler avoids marking the client closed, directly or through a helper that does so unconditionally.",
 		Run: runC09,
 	})
 }
@@ -43,6 +43,7 @@ func runC09(c *Ctx) {
 	defer c09UnregisterBeforeNotify(c)
 	c.Rule("C09.R8", "a client stream is reset only with a reason for which the pool closes the connection, or where the connection is known to be closed", 6)
 	defer c09ResetCloses(c)
+	defer c09CloseHandlerUnconditional(c)
 	c.NotDecided = append(c.NotDecided, "equality of counters with the truth over arbitrary histories", "idle-timeout / keep-alive behaviour", "the multiplex and binding pools (connections are shared or bound by design, not leased)")
 	c.Assumptions = append(c.Assumptions, "connection.Close delivers its close event synchronously to the registered listeners (so `closed` is set before OnDestroyStream re-pools)", "sync.Mutex semantics")
 
